@@ -9,7 +9,7 @@ MANIFEST = dict(
     engines="A",
     technique="symbolic execution (CrossHair+z3) of _multivalued.__init__/get_as_string/_fixed_field_lengths for Dsc, Changes, BuildInfo, PdiffIndex and Release: class variant and the subset of structured fields present are symbolic integers, record tokens and sizes are symbolic strings",
     text="Bounded model checking: for each of the five classes (Release in both size modes), every subset of its structured fields being present (symbolic bitmask over up to 6 fields per partition), 1-2 records per field, one record made of symbolic whitespace-free tokens (up to 2 characters; size column 1-3 symbolic digits): parsing exposes the records under the documented sub-field names, dump() never raises, the dump re-parses to the same records in order, the size column is right-aligned to 16 (or the longest size), and a paragraph built from record lists dumps and re-parses to the same records.",
-    note="Trusted: CrossHair's str models; stub: pure-Python StringIO inside debian.deb822 (the C StringIO realises symbolic text). Outside: empty record lists, fields given in single-line form except the pdiff *-Current fields, gpg-signed input (C02 covers armor stripping).",
+    note="Trusted: CrossHair's str models; stub: pure-Python StringIO inside debian.deb822 (the C StringIO realises symbolic text). Outside: empty record lists, gpg-signed input (C02 covers armor stripping).",
 )
 
 FUNCTIONS = ["debian.deb822._multivalued.__init__", "debian.deb822._multivalued.get_as_string", "debian.deb822._multivalued.validate_input",
@@ -76,7 +76,7 @@ TOKENS = ["a", "Zz", "d41d8cd98f00b204e9800998ecf8427e", "\u00e9t\u00e9", "x:y",
 SIZES = ["7", "12345678901234567", "42", "1234567890123456", "0", "1024", "99999"]
 
 
-def h_multi(params, mask: int, nrec: int, a: int, b: int, s0: int, s1: int):
+def h_multi(params, mask: int, nrec: int, a: int, b: int, s0: int, s1: int, sl: int = 0):
     """Class variant fixed per partition; subset of present fields, record count, token and size
     choices are symbolic indices (paths run concretely)."""
     name, cls, mode = VARIANTS[params["variant"]]
@@ -90,11 +90,18 @@ def h_multi(params, mask: int, nrec: int, a: int, b: int, s0: int, s1: int):
         assume(b == (a + 3) % len(TOKENS))
         assume(s1 == (s0 + 2) % len(SIZES))
     present = [f for i, f in enumerate(fields) if (mask >> i) & 1]
+    # sl: which of the fields are written in single-line form ("Field: a size name": one record, exposed as a mapping)
+    assume(0 <= sl < (1 << len(fields)))
+    assume(sl & mask == sl)
+    if not params.get("oneline"):
+        assume(sl == 0)
+    elif "thin" in params:
+        assume((sl == mask) | (sl == (mask & 5)))
     text = "Origin: test\n"
     expect = {}
     for fi, f in enumerate(present):
         subs = cls._multivalued_fields[f]
-        single = f.endswith("-current")
+        single = f.endswith("-current") or bool((sl >> fields.index(f)) & 1)
         recs = []
         for r in range(1 if single else nrec):
             rec = []
@@ -145,6 +152,12 @@ def _roundtrip(params, name, cls, mode, fields, present, expect, text):
             lines = out.split("\n")
             for f, (subs, recs, single) in expect.items():
                 if single:
+                    if cls is Release:
+                        r, si = recs[0], subs.index("size")
+                        width = 16 if mode == "apt-ftparchive" else len(r[si])
+                        want = "%s:  %s" % (pretty(f), " ".join(r[:si] + [" " * max(0, width - len(r[si])) + r[si]] + r[si + 1:]))
+                        require(want in lines, "size column alignment of a single-line field", field=f, want=want, out=out)
+                        reach(params, "aligned-single")
                     continue
                 longest = max(len(r[subs.index("size")]) for r in recs)
                 width = 16 if mode == "apt-ftparchive" else longest
@@ -245,6 +258,10 @@ def partitions(tier, seed):
             P.append(dict(name="%s/fields%d-%d" % (name, lo, hi), harness="h_multi", params=params, budget=100 if q else 2400,
                           reach=["nonempty"] + (["aligned"] if cls in (Release, PdiffIndex) else []),
                           bounds="%s: every subset of structured fields %d..%d present, 1-2 records, tokens/sizes by symbolic index from catalogues of %d/%d" % (name, lo, hi - 1, len(TOKENS), len(SIZES))))
+            if cls is Release or not q:
+                P.append(dict(name="%s/fields%d-%d/single-line" % (name, lo, hi), harness="h_multi", params=dict(params, oneline=True), budget=100 if q else 2400,
+                              reach=["nonempty"] + (["aligned-single"] if cls is Release else []),
+                              bounds="%s: as above with every subset%s of the present fields written in single-line form" % (name, " (thinned)" if q else "")))
         fs = sorted(cls._multivalued_fields)
         for f in ((fs[0],) if q else (fs[0], fs[-1])):
             if f.endswith("-current"):
